@@ -171,7 +171,15 @@ class BaseProperty(base.BaseObject):
         # set up must not end up in the parents child list.
         self.parent = parent
 
-        for err in validation.Validation(self).errors:
+        try:
+            issues = validation.Validation(self).errors
+        except Exception:
+            # The same goes for a Property a validation rule cannot deal with.
+            if self._parent is not None:
+                self._parent.remove(self)
+            raise
+
+        for err in issues:
             if err.is_error:
                 use_name = err.obj.name if err.obj.id != err.obj.name else None
                 prop_formatted = "Property[id=%s|%s]" % (err.obj.id, use_name)
